@@ -17,6 +17,7 @@ ENGINES = {
     "coq-secure": ("coq/secure", "universe of Go values + function-by-function transcription of clone/secure.go, clone entry points, reports.Render, registry.findSecrets"),
     "coq-clone": ("coq/clone", "value-level and location-labelled transcription of clone.go"),
     "coq-attempts": ("coq/attempts", "functional model of one action run (actions.go + Backoff.Retry) and its observable automaton"),
+    "coq-select": ("coq/select", "row-wise store model + transcription of execute/recovery.go (search, filter, lastUpdate, agedOut) + tree-level specification"),
     "coq-api": ("coq/api", "small-step model of Plans.Start / the run goroutine / Wait, Status, Plan, Submit"),
     "coq-validate": ("coq/validate", "transcription of workflow.Validate (BFS queue, shared key set), Defaults, Submit, validateStartState + declarative WF"),
 }
@@ -111,6 +112,20 @@ CHECKS["C05"] = dict(
          "and re-run)",
     technique="Coq proof (fuelled functional model, product invariant automaton/monitor) + differential correspondence against the real engine",
     design="DESIGN.md section 6 C05, section 13")
+
+CHECKS["C11"] = dict(
+    engine="coq-select",
+    text="Coq theorems over the transcription of recovery's plan selection for EVERY store (unique primary keys), now, maxAge and recovery "
+         "flag: exactly the durably Running, non-stale plans are resumed, once; a Running plan whose latest recorded activity (start/end "
+         "of every object and of every attempt) is older than maxAge (strict) becomes exactly close_plan = Failed / ExceedRecovery with "
+         "nothing left Running, through the write list the code issues, and is not resumed; every other plan is identical afterwards; "
+         "with recovery disabled nothing changes. Correspondence: generated multi-plan stores (real crash images, ages maxAge +/- 200 ms / "
+         "1 s / x10, six maxAge values, both option orders, in-memory and file-backed sqlite) opened by the real coercion.New in child "
+         "processes; full post-state, plugin calls and vault writes compared with the model and the property monitor (vm_compute).",
+    note="the clock is not injectable: the exact boundary is proved in the model and sampled >= 200 ms away in the implementation; store "
+         "errors during recovery are not modelled; what a resumed plan then does is C09/C10",
+    technique="Coq proof (persist-by-key write semantics, specification by direct tree recursion) + differential correspondence with property monitor",
+    design="DESIGN.md section 6 C11, section 13")
 
 PENDING_REASON = "check under construction in this session (see DESIGN.md section 12 build order); not yet claimed"
 
